@@ -41,6 +41,7 @@ _DEPTH = re.compile(r"The depth of the complete state graph search is (\d+)")
 _COV = re.compile(r"^<(\w+) line (\d+), col \d+ to line \d+, col \d+ of module (\w+)(?: \([\d ]+\))?>: (\d+):(\d+)")
 _INVVIOL = re.compile(r"Error: Invariant (\w+) is violated")
 _ACTVIOL = re.compile(r"Error: Action property (\w+) is violated")
+_TMPVIOL = re.compile(r"Error: Temporal property (\w+) was violated")
 
 
 def _java_classpath():
@@ -116,7 +117,7 @@ def tlc(module, cfg, *, workers=8, timeout=300, env=None, simulate=None, depth=N
             c[0] += int(m.group(4))
             c[1] += int(m.group(5))
             continue
-        m = _INVVIOL.search(line) or _ACTVIOL.search(line)
+        m = _INVVIOL.search(line) or _ACTVIOL.search(line) or _TMPVIOL.search(line)
         if m:
             res["violated"] = m.group(1)
     if simulate and res["generated"] == 0:
